@@ -7,6 +7,7 @@ mod c12;
 mod c13;
 mod c15;
 mod c16;
+mod c17;
 mod c19;
 mod recdest;
 mod rng;
@@ -81,6 +82,7 @@ fn main() {
         ("gen", "C05") => { c05::generate("C05", seed, &tier, &mut out); c01::generate("C05", seed, &tier, &mut out) }
         ("gen", "C04") => { c05::generate("C04", seed, &tier, &mut out); c01::generate("C04", seed, &tier, &mut out); c04::generate(seed, &tier, &mut out) }
         ("gen", "C07") => c01::generate("C07", seed, &tier, &mut out),
+        ("gen", "C17") => c17::generate(seed, &tier, &mut out),
         ("gen", "C19") => c19::generate(seed, &tier, &mut out),
         ("gen", "C15") => c15::generate(seed, &tier, &mut out),
         ("gen", "C13") => c13::generate(seed, &tier, &mut out),
